@@ -50,6 +50,8 @@ class World:
         self.lossy = [self.tid("+proj=longlat +datum=WGS84 +no_defs"), self.tid("+proj=longlat +datum=WGS84 +no_defs +type=crs"),
                       self.tid("urn:ogc:def:crs:EPSG::4326"), self.tid("OGC:CRS84")]
         self.invalid = [self.tid("EPSG:999999"), self.tid("not a crs"), self.tid("epsg:")]
+        # compound definitions spelled as authority strings (accepted since /repo 3b5294a, upper-cased since 64819b7)
+        self.lossy += [self.tid("EPSG:4326+5773"), self.tid("epsg:4326+5773")]
         for t in extra_strings:
             self.lossy.append(self.tid(t))
         self.spec_strings += self.lossy + self.invalid
@@ -156,8 +158,11 @@ class World:
                     bad.append(f"EPSG-like input {T[t]!r} has srs {T[r]!r}")
                 if self.prep.get(u) is None or self.cls[self.prep[u]] != self.cls[r]:
                     bad.append(f"{T[t]!r} and its upper-case form are not pyproj-equal")
-                if self.toepsg[r] != self.code[u]:
+                # single-code strings only: a compound "EPSG:h+v" string has no code of its own (o_code = 0)
+                if u in self.code and self.toepsg[r] != self.code[u]:
                     bad.append(f"to_epsg({T[t]!r}) = {self.toepsg[r]} differs from the code in the string")
+                if u in self.code and (self.code[u] == 0 or T[u] != f"EPSG:{self.code[u]}"):
+                    bad.append(f"{T[u]!r} is not spelled EPSG:<non-zero code>")
         for a, b in itertools.combinations(self.srs, 2):
             if self.cls[a] == self.cls[b]:
                 ea, eb = self.toepsg[a], self.toepsg[b]
